@@ -136,4 +136,41 @@ func init() {
 		NotCovered:  "gorilla/mux semantics are trusted (router-wide middlewares run for every matched route in Use order; unmatched requests get 404/405 without middleware — no handler runs for them either); base64 decoding details; timing side channels of string comparison.",
 		Assumptions: []string{"gorilla/mux v1.8 middleware semantics (read from the dependency)", "the configured credentials reach main/applyMiddlewares unchanged (they are the same expressions in guard and call, checked)"},
 	}
+	properties["C01"] = &Property{
+		Rules: []string{"A1", "A2", "A3", "A4", "A9", "B1"},
+		Explanation: "Decides that the chain handler → doParse → doPush → Request → swapBuffers → flush → Done carries the INSERT's error to the status line on every control-flow path and cannot skip the wait: " +
+			"(A3) the success status is written only by PostRequest stages, which run only on the success edge of the parse step; (A2) the parse step returns success only after waiting for the promise of every pushed chunk, and every request field a parser produces is pushed; " +
+			"(A4) each waiting promise is resolved with the very error returned by the INSERT of the block built from the columns swapped out together with it, and doPush resolves with the retried request's error unchanged; " +
+			"(A1) every promise handed to a waiter is completed, queued with the batch under the lock, or owned by a goroutine that completes it on all paths, and completes at most once; (B1) the shared batch (columns, size, promises, flush context) is only touched under the service lock; " +
+			"(A9) parsed rows are never replaced by fresh buffers without having been sent to the insert path.",
+		NotCovered:  "Liveness under all schedules beyond the typestate (e.g. a request whose GetSize() is 0 waits for the next non-empty flush); ch-go's Do; retry timing and Attempts(0) semantics of retry-go; that ClickHouse durably stored the block.",
+		Assumptions: []string{"function values passed to retry.Do / mux are called by them", "ch_wrapper.IChClient.Do returns nil only if the server accepted the block"},
+	}
+	properties["C02"] = &Property{
+		Rules: []string{"C1", "C2", "C3", "B1"},
+		Explanation: "Decides the structural rectangularity conditions of C02: (C1) per insert service, acquired columns = INSERT columns = schema columns, serialize/deserialize agree by position and type, FixedString widths match the schema, and each column is fed from exactly one distinct field of the request model; " +
+			"(C2) the parser callbacks grow all per-row arrays of a chunk in lock-step; (C3) every decoder hands the row builder four arrays of one length class; (B1) a request's appends and the buffer swap happen under the one service lock, so rows of different requests cannot interleave across columns and the promises swapped are those of the rows swapped.",
+		NotCovered:  "Interleavings themselves (the lock rule is the structural part); ch-go's block encoding; equal lengths *inside* a request model are decided only as far as C2/C3 reach (arrays built by the callbacks from the decoders' arrays).",
+		Assumptions: []string{"ClickHouse matches native-block columns by name"},
+	}
+	properties["C03"] = &Property{
+		Rules: []string{"C2", "C3", "A9"},
+		Explanation: "Decides only the array-skew and unsent-buffer clauses of C03: (C3) each decoder's callback arguments (timestamps, lines, values, types) are of one length class at every call site, so no entry can be dropped, duplicated or given another entry's type *by array skew*; " +
+			"(C2) the row builder appends one element to every per-row array per entry; (A9) a chunk is sent before its buffers are replaced, however the body is split into internal chunks.",
+		NotCovered:  "Timestamp parsing and units, label attribution to streams, numeric value parsing, chunk-boundary arithmetic — these need inputs; not claimed.",
+		Assumptions: []string{},
+	}
+	properties["C06"] = &Property{
+		Rules: []string{"C4", "C1", "C2"},
+		Explanation: "Decides the writer/reader agreement clauses of C06: (C4) the payload-type tags written by the span decoders are exactly those dispatched by the trace read path, each to the parser of the same family, and the read side slices ids with the schema widths 16/8; " +
+			"(C1) the trace and tag insert services acquire / insert / declare the same columns with FixedString(16)/FixedString(8) ids; (C2) one trace row and one tag row per attribute grow all their arrays together with the same ids and times.",
+		NotCovered:  "Equality of the decoded span with the pushed span (attribute flattening, timestamps, parent ids) — a round-trip over data.",
+		Assumptions: []string{},
+		Filter: keepIf(func(rule, key string) bool {
+			if rule == "C4" {
+				return true
+			}
+			return hasAny(key, "Tempo", "tempo", "onSpan")
+		}),
+	}
 }
